@@ -6,9 +6,36 @@ Open Scope Z_scope.
 Inductive pcase :=
 | CEnc (tag : Z) (p : pval) (impl : option bytes)
 | CVal (p : pval) (impl : bool)
-| CDec (t : ptype) (tag : Z) (members : list Z) (bs : bytes) (impl : option (pval * bytes)).
+| CDec (t : ptype) (tag : Z) (members : list Z) (bs : bytes) (impl : option (pval * bytes))
+(* decode bs with the real class, then write() the DECODED object (hidden state left by read() shows here):
+   impl = None: read raised; Some None: write raised; Some (Some b): the bytes written *)
+| CReenc (t : ptype) (tag : Z) (members : list Z) (bs : bytes) (impl : option (option bytes)).
 
 Definition mem_of (members : list Z) (v : Z) : bool := existsb (Z.eqb v) members.
+
+(* what re-encoding a decoded primitive produces.  Every class re-derives its header from the value, except
+   Boolean: Boolean.read keeps the length field it read (which it never checks) and Boolean.write emits it again. *)
+Definition model_reenc (t : ptype) (tag : Z) (members : list Z) (bs : bytes) : option (option bytes) :=
+  match dec_prim (mem_of members) t tag bs with
+  | None => None
+  | Some (p, _) =>
+      match t, p with
+      | PBool, VBool b =>
+          match dec_hdr tag (type_code PBool) bs with
+          | Some (len, _) => Some (with_hdr tag (type_code PBool) len (be_enc 8 (if b then 1 else 0)))
+          | None => None
+          end
+      | _, _ => Some (enc_prim tag p)
+      end
+  end.
+
+Definition oobytes_eqb (a b : option (option bytes)) : bool :=
+  match a, b with
+  | None, None => true
+  | Some None, Some None => true
+  | Some (Some x), Some (Some y) => bytes_eqb x y
+  | _, _ => false
+  end.
 
 Definition check_pcase (c : pcase) : bool :=
   match c with
@@ -25,4 +52,5 @@ Definition check_pcase (c : pcase) : bool :=
       | None, None => true
       | _, _ => false
       end
+  | CReenc t tag members bs impl => oobytes_eqb (model_reenc t tag members bs) impl
   end.
